@@ -419,18 +419,23 @@ impl<T> AtomicBucket<T> {
         // will see it as empty until another write proceeds.
         let guard = &epoch_pin();
         let mut block_ptr = self.tail.load(Ordering::Acquire, guard);
-        if !block_ptr.is_null()
-            && self
-                .tail
-                .compare_exchange(
-                    block_ptr,
-                    Shared::null(),
-                    Ordering::SeqCst,
-                    Ordering::SeqCst,
-                    guard,
-                )
-                .is_ok()
-        {
+
+        // A writer that finds the tail block full installs a new tail block.  If that happens between our load and
+        // our swap, the swap fails: retry with the new tail rather than silently clearing nothing at all.
+        while !block_ptr.is_null() {
+            match self.tail.compare_exchange(
+                block_ptr,
+                Shared::null(),
+                Ordering::SeqCst,
+                Ordering::SeqCst,
+                guard,
+            ) {
+                Ok(_) => break,
+                Err(e) => block_ptr = e.current,
+            }
+        }
+
+        if !block_ptr.is_null() {
             // The chain is detached, but writers that loaded the old tail may still be about to
             // claim a slot in its first block: seal it so they go to the new tail instead.
             unsafe { block_ptr.deref() }.seal();
